@@ -695,8 +695,9 @@ func (w *Worker) genC03Analyzer(rc *simapi.RunConfig) {
 		maxLen = 20
 	}
 	rc.Visits = w.genHistory(r, rc.Index/5, maxLen)
-	for i := range rc.Visits { // a pass always sees the whole package, in file-name order
+	for i := range rc.Visits { // a pass always sees the whole package, in file-name order, as parsed
 		rc.Visits[i].Files = w.index.AllFiles(rc.Visits[i].Pkg)
+		rc.Visits[i].DeclSeed = 0
 	}
 	ex := anaExtra{Flags: map[string]string{"enable": w.anaSelection(r, visitPkgs(rc.Visits), []int{3, 12, 40}[r.Intn(3)]), "disable": ""}}
 	if r.Intn(3) == 0 {
